@@ -50,7 +50,10 @@ theorem C12_stored_values_immune (cfg : Cfg) (hT : Total cfg) (tables : List (Na
     history — whatever is rebound, aliased or mutated in place after a collect, through whichever name — reading the
     stored column at the end shows, entry by entry, exactly what the reporter showed at the moment of its collect.
     This is what justifies treating collected model-level values as plain values in `Model/Collect.lean`.  It depends
-    on the copy: with `collect` storing the value itself the statement is false (refuted in the examples below). -/
+    on the copy: with `collect` storing the value itself the statement is false (refuted in the examples below).
+    Limits (review 3, M7): the objects of this heap are flat lists of ints and there is one string reporter, so a deep
+    and a shallow copy are the same function here — the theorem excludes storing the reference, it does not tell
+    `deepcopy` from `copy.copy`; nested values are compared on the real code only (oracle, 1-tuple-wrapped lists). -/
 theorem C12_deepcopy_makes_stored_values_immune (ops : List CollectHeap.HOp) :
     (CollectHeap.runH true CollectHeap.empty ops).col.map
         (CollectHeap.resolve (CollectHeap.runH true CollectHeap.empty ops).heap) =
@@ -206,12 +209,27 @@ theorem C12_agenttype_rows_are_class_members (cfg : Cfg) (sn : Snap) (T : Nat) (
   rw [hmain, byCreation_of_idSorted (hs.filter _)]
   cases direct <;> rfl
 
-/-- An in-place reordering of `model.agents` (`shuffle(inplace=True)`, `sort(…, inplace=True)`) rearranges the
-    registry and touches nothing else: what the DataCollector holds, the step counter, the attributes are as
-    before; the registered agents are the same agents. -/
+/-- An in-place reordering of `model.agents` — `sort(…, inplace=True)` by id or by a key, or `shuffle(inplace=True)`
+    drawing *any* permutation of the positions (`ReKind.perm p`, so the histories of every theorem of this file contain
+    shuffles with every possible outcome, not only reversals and rotations) — touches no other field of the state: what
+    the DataCollector holds, the step counter, the attributes are as before; it never raises; and the registered
+    agents are the same agents, each as often as before. -/
 theorem C12_reorder_only_permutes_agents (cfg : Cfg) (s : State) (k : ReKind) :
-    (apply cfg s (.reorder k)).1 = { s with agents := reorderList k s.agents } ∧
-    (apply cfg s (.reorder k)).2 = none ∧ (reorderList k s.agents).Perm s.agents := ⟨rfl, rfl, reorderList_perm k s.agents⟩
+    (apply cfg s (.reorder k)).1 = { s with agents := (apply cfg s (.reorder k)).1.agents } ∧
+    (apply cfg s (.reorder k)).2 = none ∧ (apply cfg s (.reorder k)).1.agents.Perm s.agents :=
+  ⟨rfl, rfl, reorderList_perm k s.agents⟩
+
+/-- **`shuffle(inplace=True)`, whatever it draws**: for every permutation `p` of the positions the agent that was at
+    position `p[j]` is afterwards at position `j` — so the rows of the next collect (`C12_collect_records_registered_agents`:
+    one per agent, in the order of `model.agents` at that moment) come in that order, whichever it is. -/
+theorem C12_shuffle_any_order (cfg : Cfg) (s : State) (p : List Nat) (hp : p.Perm (List.range s.agents.length)) :
+    (apply cfg s (.reorder (.perm p))).1.agents.length = s.agents.length ∧
+    ∀ j : Nat, (apply cfg s (.reorder (.perm p))).1.agents[j]? = (p[j]?).bind (fun i => s.agents[i]?) := by
+  have hperm : isPermOfRange p s.agents.length = true := List.isPerm_iff.mpr hp
+  have hlt : ∀ i ∈ p, i < s.agents.length := fun i hi => List.mem_range.mp (hp.mem_iff.mp hi)
+  have h := filterMap_getElem?_pick s.agents p hlt
+  simp only [apply, reorderList, hperm, if_true]
+  exact ⟨by rw [h.1, hp.length_eq, List.length_range], h.2⟩
 
 /-- `model.agents` is in creation order (strictly ascending `unique_id`) after every history that does not
     reorder it in place; after any history at all the ids are distinct and below the next id to be handed out.
@@ -522,5 +540,11 @@ example : (run miCfg (init miCfg []) [.create 2 [(0, .int 4)], .create 1 [(0, .i
 example : (run miCfg (init miCfg []) [.create 2 [(0, .int 4)], .create 2 [], .reorder .rot, .collect]).typeRecords.map
     (fun x => x.2.map fun y => (y.1, y.2.map (·.id))) = [[(0, [2, 1]), (1, [2, 1])]] := by decide
 end Example
+
+/-- non-vacuity: three agents, the shuffle draws `[2, 0, 1]`; a list that is not a permutation of the positions is not
+    a draw (nothing moves) -/
+example : ((run miCfg (init miCfg []) [.create 1 [], .create 2 [], .create 1 [], .reorder (.perm [2, 0, 1])]).agents.map (·.id),
+    (run miCfg (init miCfg []) [.create 1 [], .create 2 [], .create 1 [], .reorder (.perm [2, 0, 0])]).agents.map (·.id)) =
+    ([3, 1, 2], [1, 2, 3]) := by decide
 
 end Mesa.Collect
